@@ -30,6 +30,9 @@ CHECKS = {
  "C04": ("model_checking", "bounded-exhaustive enumeration of switch-originated shapes, one-field-off-base values and two-step parse histories; frames written by an independent reference encoder, parsed by the real Parse and compared field by field",
          "Every tree of the switch-originated corpus (every kind Parse has a type for; hello 0..3 elements x 1..3 bitmaps; all error types x 3 data sizes; packet-in x reasons x 9 payload kinds; stats replies with 0..3 records; every decodable match field unmasked and masked in flow-removed, packet-in and flow-stats; every action and instruction kind and all ordered pairs of the 32 action kinds inside flow-stats records; match-field pairs/triples; Nicira TLV-table and bundle replies) and every scalar/fixed-width field of one base message per kind varied alone over its whole value alphabet is serialised by engine/wire, parsed by openflow13.Parse, read back through exported fields and diffed against the tree. All ordered pairs of base messages run as two-step histories (parse A, parse B, read A again), and the last 8 parsed messages are re-read after every parse.",
          "Match fields the library has no decoder for at the pinned commit (a fixed list in checks/c04.go) are outside 'supported match-field kinds' and are not generated. Failing trees are minimised (delta debugging on the model tree) so that the signature names the element kind at fault.", "4/C04"),
+ "C05": ("model_checking", "bounded-exhaustive enumeration of values built through the real API (shape corpus, extended element alphabets, one-field-off-base values) x decode routes x followers; encode/decode/re-encode on the real codecs",
+         "Every standalone action of the extended alphabet, every decodable match field (unmasked and masked), every instruction kind x residue actions, buckets, and every stats record / request body type is encoded and decoded through the category's dispatcher and directly into a receiver of the same type, alone and followed by {8 zero bytes, 8 0xff bytes, a copy of itself, one encoding per size residue}; every message of the controller- and switch-originated corpora (incl. all ordered action pairs, bundle nesting, values obtained from the parser for kinds without constructors) and every field of one base message per kind over its value alphabet goes through Parse (or the constructor-made receiver for packet-out, group-mod, port-mod). Oracle: decode succeeds, same dynamic type, equal exported field values, reported extent = bytes encoded, re-encoding reproduces the bytes.",
+         "Observable values = exported fields without derived length fields and transaction ids; a match-field payload compares through its encoding (generic and typed payload representations are the same value); a note compares modulo the zero bytes the wire pads it with. Bundle-adds around kinds Parse does not decode, packet-in without payload and match fields without decoder are not two-way values (counted in the evidence).", "4/C05"),
 }
 ORDER = ["C%02d" % i for i in range(1, 20)]
 NA = {}
